@@ -32,7 +32,12 @@ fn plan_c24(seed: u64, tier: &str) -> Plan {
     let dl = deadline_ms.map(|d| d * 1_000_000);
     let n_w = r.range(2, 3) as u32;
     let wq = |s: i32| Q { reliable: Some(true), history: Some(0), mbt_ms: Some(-1), exclusive: true, strength: s, deadline_ns: dl, autodispose: Some(false), ..Default::default() };
-    let rq = Q { reliable: Some(true), history: Some(0), exclusive: true, deadline_ns: dl, ..Default::default() };
+    // In a third of the runs both readers also have a TIME_BASED_FILTER of 100 ms and every write comes at least 130 ms
+    // after the previous one, so that every written sample passes the filter while an unregister that follows a write
+    // directly falls inside the separation: giving the instance up must not depend on that notification being kept.
+    // (decided from a stream of its own, so that the other choices of a seed stay what they were)
+    let tbf = Rng::derive(seed, "ownership-tbf").chance(0.34);
+    let rq = Q { reliable: Some(true), history: Some(0), exclusive: true, deadline_ns: dl, tbf_ns: if tbf { Some(100_000_000) } else { None }, ..Default::default() };
     let mut setup = vec![];
     // participants: 0 and 3 hold writers, 1 and 2 hold one reader each
     for p in 0..4u32 {
@@ -76,6 +81,9 @@ fn plan_c24(seed: u64, tier: &str) -> Plan {
                 let key = r.below(2) as u8;
                 if !registered.contains(&(w, key)) {
                     registered.push((w, key));
+                }
+                if tbf {
+                    ops.push(Op::Sleep { us: 130_000 });
                 }
                 ops.push(Op::W { w, k: WKind::Write, key, len: 4, x: uid as i32, name: String::new(), ts: None, h: H::None, uid });
                 ops.push(Op::WaitAcks { w, timeout_ms: 20_000, freeze_check: false });
@@ -200,7 +208,9 @@ fn check_c24(plan: &Plan, out: &Outcome) -> Verdict {
                                     let established = d_ns.is_none() && reg[key][&o.0] > last_release.get(key).copied().unwrap_or(0).max(last_release_all);
                                     v.violate("C24", "C24.weaker-presented", if established { "C24.weaker-presented owner-established".to_string() } else { "C24.weaker-presented".to_string() }, format!("reader {rd} presented seq {uid} of writer {w} (strength {sw}) on instance {key} while writer {} (strength {}) is alive, has the instance registered and wrote it {} ms before", o.0, o.1, (t - reg[key][&o.0]) / 1_000_000));
                                 }
-                                if !got && !stronger_possible && !equal {
+                                // (judged only when the draining observers had time to see the sample: a minimised plan may
+                                // end directly after the write)
+                                if !got && !stronger_possible && !equal && out.sim_ns.saturating_sub(t) > 100_000_000 {
                                     v.violate("C24", "C24.owner-not-presented", format!("C24.owner-not-presented after_departure={}", !gone.is_empty()), format!("reader {rd} did not present seq {uid} of writer {w} (strength {sw}) on instance {key} although no other live writer of that instance is as strong (writers gone: {:?})", gone));
                                 }
                                 if equal && !stronger_possible {
